@@ -61,7 +61,11 @@ func HarnessC13a() {
 	t0, err := NewRoot(&CreateRemoteOptions{BranchFactor: bf}).LoadMast(vctx, cfg)
 	verifAssert("C01.new.err", err == nil)
 	md0 := &symModel{}
-	t0, md0, _ = applyOps("build", t0, md0, cfg, N, 1)
+	if verifBoundOr("ASC", 0) == 1 {
+		buildAscending("build", t0, md0, N)
+	} else {
+		t0, md0, _ = applyOps("build", t0, md0, cfg, N, 1)
+	}
 	r0, err := t0.MakeRoot(vctx)
 	verifAssert("C01.makeroot.err", err == nil)
 	if err != nil {
